@@ -59,6 +59,8 @@ def gen_cases(tier, seed):
         r = random.Random(env.seed_for(s, "descriptor"))
         out.append({"seed": s, "mode": "dry", "n": r.randint(1, 12), "registry": r.choice(["none", "none", "empty", "full"]), "members": r.choice([1, 2]), "W": 1, "sched": "default",
                     "cfg": {"out": r.choice(["all", "sinks", "node", "none"]), "p_scope": 0.6, "n_fnames": 3}})
+    for i in range(3 if tier == "quick" else 12):
+        out.append({"seed": env.seed_for(seed, ID, tier, "many_callables", i), "mode": "many_callables", "members": 1, "W": 2, "n": 30, "sched": "default"})
     for i in range(n // 12):
         s = env.seed_for(seed, ID, tier, "faulty", i)
         r = random.Random(env.seed_for(s, "descriptor"))
@@ -124,6 +126,51 @@ def make_progress(desc, tmpdir=None):
         return recs, up.composite_progress(*members)
     # nested composite
     return recs, up.composite_progress(members[0], up.composite_progress(*members[1:]))
+
+
+def run_many_callables(desc):
+    """One process, several rounds, thousands of short-lived call functions per round (more than any internal cache holds), each round's
+    functions freed before the next: the scopes reported for a run must carry the names of the functions of THAT run."""
+    import gc
+
+    import uberjob
+
+    rng = random.Random(desc["seed"])
+    bad = None
+    checked = 0
+    for rnd in range(4):
+        fns = []
+        for i in range(4400):
+            def f(*a, _i=i):
+                return _i
+            f.__name__ = f.__qualname__ = f"r{rnd}_{i}"
+            f.__module__ = "vmonfn"
+            fns.append(f)
+        plan = uberjob.Plan()
+        for f in fns:
+            plan.call(f)  # every function passes through Plan.call (binding check, caches)
+        used = rng.sample(range(len(fns)), 25)
+        plan2 = uberjob.Plan()
+        nodes = [plan2.call(fns[i]) for i in used]
+        recorder = recobserver.RecObserver("rec")
+        got = uberjob.run(plan2, output=nodes, progress=recorder.progress(), max_workers=desc["W"])
+        want = collections.Counter({(f"vmonfn.r{rnd}_{i}",): 1 for i in used})
+        want[("gather_list",)] += 1
+        tot = recobserver.totals(recorder.trace, "run")
+        checked += 1
+        if got != used:
+            bad = f"round {rnd}: run returned {got[:5]}..., expected {used[:5]}..."
+        elif tot != want:
+            wrong = {k: v for k, v in tot.items() if want.get(k) != v}
+            bad = f"round {rnd}: 'run' totals are reported under scopes {dict(list(wrong.items())[:4])} - not the names of the functions executed in this run ({list(want)[:3]}...)"
+        if bad:
+            break
+        del fns, plan, plan2, nodes, recorder
+        gc.collect()
+    res = {"status": "ok", "counters": {"many_callables_rounds": checked}, "nontrivial": True, "sig": f"many|{desc['seed'] % 1000}"}
+    if bad:
+        res.update(status="violation", detail=f"[thousands of short-lived call functions in one process] {bad}", mechanism="observer-trace")
+    return res
 
 
 def run_dry(desc):
@@ -193,6 +240,8 @@ def run_case(desc):
         return res
     if desc["mode"] == "dry":
         return run_dry(desc)
+    if desc["mode"] == "many_callables":
+        return run_many_callables(desc)
     recs, progress = make_progress(desc)
     extra_calls = []
     if desc["mode"] == "plain":
@@ -321,6 +370,31 @@ def run_case(desc):
                     miss = {k: v for k, v in want.items() if st_tot.get(k) != v}
                     bad = f"'stale' totals differ from the number of calls examined: observer {extra} vs logical plan {miss}"
                 counters["stale_total_scopes_checked"] = len(st_tot)
+    if bad is None and desc["mode"] == "plain" and desc["seed"] % 4 == 0 and not desc.get("faults"):
+        # the same Progress object (e.g. one composite_progress(...) kept in a variable) observes a SECOND run: again entered, notified, exited
+        import uberjob
+
+        n1 = [len(r_.trace) for r_ in recs]
+        exc2 = None
+        try:
+            uberjob.run(R.plan, **R.kw)
+        except BaseException as e:
+            exc2 = e
+        counters["second_runs_with_the_same_progress_object"] = 1
+        for j, r_ in enumerate(recs):
+            tr2 = [(q - n1[j], t, k, s_, sc, x) for q, t, k, s_, sc, x in r_.trace[n1[j]:]]
+            if not tr2:
+                bad = f"a second run with the same Progress object: member {j} received nothing at all (first run: {n1[j]} notifications)"
+                break
+            b2 = recobserver.check_trace(tr2, balanced=True, succeeded=exc2 is None)
+            if b2:
+                bad = f"a second run with the same Progress object, member {j}: {b2}"
+                break
+            if recobserver.totals(tr2, "run") != recobserver.totals(r_.trace[:n1[j]], "run"):
+                bad = f"a second run of the same plan with the same Progress object announced different 'run' totals to member {j}"
+                break
+        for r_ in recs:
+            del r_.trace[n1[recs.index(r_)]:]  # the member comparison below looks at the first run
     if bad is None and len(recs) > 1:
         # every member must receive every notification; each thread forwards its notifications in order, so the
         # per-thread subsequences must be identical (the interleaving of different threads may differ between members)
